@@ -13,6 +13,7 @@ import Cgp.Drive.Op
 import Cgp.Drive.Up
 import Cgp.Drive.Ex
 import Cgp.Drive.AbiD
+import Cgp.Drive.ItsD
 open Cgp Cgp.Tok
 
 inductive World where
@@ -24,21 +25,24 @@ inductive World where
   | up (s : Cgp.Drive.Up.UpS)
   | ex (s : Cgp.Drive.Ex.ExS)
   | abi
+  | its (s : Cgp.Drive.ItsD.ItsS)
 
 structure Out where
   obs : String
   kind : String
+  pviol : Option String := none
 
 def World.step (w : World) (t : List String) (implObs : String) : World × Out :=
   match w with
-  | .none => (w, ⟨"parse-error:no-scenario", "parse-error"⟩)
-  | .gw s => let (s', o) := Cgp.Drive.Gw.step s t; (.gw s', ⟨o.obs, o.kind⟩)
-  | .tk s => let (s', o) := Cgp.Drive.Tk.step s t; (.tk s', ⟨o.obs, o.kind⟩)
-  | .gs s => let (s', o) := Cgp.Drive.Gs.step s t implObs; (.gs s', ⟨o.obs, o.kind⟩)
-  | .op s => let (s', o) := Cgp.Drive.Op.step s t; (.op s', ⟨o.obs, o.kind⟩)
-  | .up s => let (s', o) := Cgp.Drive.Up.step s t implObs; (.up s', ⟨o.obs, o.kind⟩)
-  | .ex s => let (s', o) := Cgp.Drive.Ex.step s t implObs; (.ex s', ⟨o.obs, o.kind⟩)
-  | .abi => let o := Cgp.Drive.AbiD.step t; (.abi, ⟨o.obs, o.kind⟩)
+  | .none => (w, ⟨"parse-error:no-scenario", "parse-error", Option.none⟩)
+  | .gw s => let (s', o) := Cgp.Drive.Gw.step s t; (.gw s', ⟨o.obs, o.kind, Option.none⟩)
+  | .tk s => let (s', o) := Cgp.Drive.Tk.step s t; (.tk s', ⟨o.obs, o.kind, Option.none⟩)
+  | .gs s => let (s', o) := Cgp.Drive.Gs.step s t implObs; (.gs s', ⟨o.obs, o.kind, Option.none⟩)
+  | .op s => let (s', o) := Cgp.Drive.Op.step s t; (.op s', ⟨o.obs, o.kind, Option.none⟩)
+  | .up s => let (s', o) := Cgp.Drive.Up.step s t implObs; (.up s', ⟨o.obs, o.kind, Option.none⟩)
+  | .ex s => let (s', o) := Cgp.Drive.Ex.step s t implObs; (.ex s', ⟨o.obs, o.kind, Option.none⟩)
+  | .abi => let o := Cgp.Drive.AbiD.step t; (.abi, ⟨o.obs, o.kind, Option.none⟩)
+  | .its s => let (s', o) := Cgp.Drive.ItsD.step s t implObs; (.its s', ⟨o.obs, o.kind, o.pviol⟩)
 
 def World.known : World → List String
   | .none => []
@@ -49,6 +53,7 @@ def World.known : World → List String
   | .up _ => Cgp.Drive.Up.known
   | .ex _ => Cgp.Drive.Ex.known
   | .abi => []
+  | .its _ => Cgp.Drive.ItsD.known
 
 def newWorld (cluster : String) : World :=
   match cluster with
@@ -59,6 +64,7 @@ def newWorld (cluster : String) : World :=
   | "up" => .up {}
   | "ex" => .ex {}
   | "abi" => .abi
+  | "its" => .its {}
   | _ => .none
 
 structure RunAcc where
@@ -105,7 +111,12 @@ partial def loop (h : IO.FS.Stream) (acc : RunAcc) : IO RunAcc := do
         let (w', out) := acc.world.step toks implC
         let acc := { acc with ops := acc.ops + 1, cov := bump acc.cov (toks.head! ++ "|" ++ cls0 ++ "|" ++ out.kind) }
         if out.obs = implC then
-          loop h { acc with world := w', agree := acc.agree + 1 }
+          -- full-strength property clause evaluated on an operation both accept (known-finding detection)
+          match out.pviol with
+          | some clause =>
+            IO.println s!"DISAGREE line={acc.lines} scenario={acc.scenario} class=p-clause op={toks.head!} kind={clause} model=[{out.obs}] impl=[{implC}]"
+            loop h { acc with world := w', agree := acc.agree + 1, disagree := acc.disagree + 1 }
+          | none => loop h { acc with world := w', agree := acc.agree + 1 }
         else
           let cls :=
             if out.obs.startsWith "parse-error" then "driver-error"
